@@ -1,5 +1,9 @@
 //! vh <sub> --seed S --n N --dir DIR [--thorough] [--corpus FILE]
 use std::env;
+
+#[global_allocator]
+static GLOBAL: vharness::alloc::Counting = vharness::alloc::Counting;
+
 fn main() {
     let args: Vec<String> = env::args().collect();
     if args.len() < 2 {
@@ -7,6 +11,10 @@ fn main() {
         std::process::exit(2);
     }
     let sub = args[1].clone();
+    if sub == "deepchild" {
+        vharness::codec::deep_child(args[2].parse().unwrap());
+        return;
+    }
     let mut seed = 1u64;
     let mut n = 100u64;
     let mut dir = String::from("out");
@@ -33,6 +41,7 @@ fn main() {
         "codec" => vharness::codec::run(seed, n, thorough, &corpus, &dir),
         "c08" => vharness::c08::run(seed, n, thorough, &corpus, &dir),
         "c08w" => vharness::c08::run_wake(seed, n, &dir),
+        "typed" => vharness::typed::run(seed, n, thorough, &corpus, &dir),
         other => { eprintln!("unknown sub-harness {other}"); std::process::exit(2); }
     }
 }
